@@ -14,6 +14,9 @@ CONSTANTS
   CraftToks = {"TF", "TQ"}
   MaxPresent = 2
   Calls = {"exchange", "client", "craft", "deliver"}
+  HealRounds = 0
+  HealDt = 250
+  Bound = 0
   PropsOn <- P_HS
   Export = TRUE
   ExportAll = FALSE
